@@ -106,7 +106,7 @@ pub fn property() -> Property {
         assumptions: &["reference attack geometry is correct"],
         subchecks: vec![SubCheck {
             name: "raw_boards",
-            driver: Driver::Generated { gen: gen_raw_case, genome_len: 256, quick: 2_000_000, thorough: 50_000_000 },
+            driver: Driver::Generated { gen: gen_raw_case, genome_len: 256, quick: 6_000_000, thorough: 50_000_000 },
             check: check_case,
             configs: Configs::Both,
             required: &[
